@@ -185,6 +185,7 @@ type c11Page struct {
 	NullPage           bool
 	NullCount          int64
 	MinLen, MaxLen     int
+	MaxFF              int // number of leading 0xFF bytes of the column index max value
 }
 
 type c11Chunk struct {
@@ -293,6 +294,9 @@ func c11FileInfo(file []byte, f *parquet.File) (out [][]c11Chunk, err error) {
 					}
 					if pi < len(cix.MaxValues) {
 						pg.MaxLen = len(cix.MaxValues[pi])
+						for pg.MaxFF < pg.MaxLen && cix.MaxValues[pi][pg.MaxFF] == 0xFF {
+							pg.MaxFF++
+						}
 					}
 					c.Pages = append(c.Pages, pg)
 				}
@@ -684,6 +688,28 @@ func c11Summarise(info [][]c11Chunk, ncol int) []c11ColSummary {
 	return out
 }
 
+// c11OverLimit counts the column index entries of column ci that are longer than the limit although
+// a shorter bound exists: any min value; a max value whose first `lim` bytes are not all 0xFF
+func c11OverLimit(info [][]c11Chunk, ci, lim int) (n int, example string) {
+	if lim <= 0 {
+		return
+	}
+	for gi, rg := range info {
+		if ci >= len(rg) || (rg[ci].Type != int(format.ByteArray) && rg[ci].Type != int(format.FixedLenByteArray)) {
+			continue
+		}
+		for pi, p := range rg[ci].Pages {
+			if p.MinLen > lim || (p.MaxLen > lim && p.MaxFF < lim) {
+				if n == 0 {
+					example = fmt.Sprintf("row group %d page %d: min %d bytes, max %d bytes", gi, pi, p.MinLen, p.MaxLen)
+				}
+				n++
+			}
+		}
+	}
+	return
+}
+
 func keys[K comparable](m map[K]bool) string {
 	var xs []string
 	for k := range m {
@@ -754,6 +780,12 @@ func c11Settings(b *c11Cfg, got, ref [][]c11Chunk, ncol int) (aspects []string, 
 		}
 		if g[ci].maxIdxLen > b.IndexLimit && g[ci].maxIdxLen > r[ci].maxIdxLen {
 			stat = append(stat, fmt.Sprintf("index-limit %s: column index value of %d bytes, limit %d, longest on the row path %d", col, g[ci].maxIdxLen, b.IndexLimit, r[ci].maxIdxLen))
+		} else if n, ex := c11OverLimit(got, ci, b.IndexLimit); n > 0 {
+			// entry by entry: a value longer than the limit that could have been shortened (a lower
+			// bound always can; an upper bound unless its first `limit` bytes are all 0xFF)
+			if rn, _ := c11OverLimit(ref, ci, b.IndexLimit); rn == 0 {
+				stat = append(stat, fmt.Sprintf("index-limit %s: %d column index values exceed the limit %d although they can be shortened (%s); none on the row path", col, n, b.IndexLimit, ex))
+			}
 		}
 		if !subset(g[ci].colIndex, r[ci].colIndex) {
 			stat = append(stat, fmt.Sprintf("column-index-presence %s: column index present {%s} row path {%s}", col, keys(g[ci].colIndex), keys(r[ci].colIndex)))
@@ -1464,8 +1496,16 @@ func c11Run(ctx *core.Ctx, env *c11Env, d interface {
 			}
 		}
 		if wantCopy != out.copyN || wantReenc != out.reencN {
+			var over []string
+			for ci := 0; ci < ncol; ci++ {
+				gn, gex := c11OverLimit(outInfo, ci, c.b.IndexLimit)
+				rn, _ := c11OverLimit(refInfo, ci, c.b.IndexLimit)
+				if gn > 0 || rn > 0 {
+					over = append(over, fmt.Sprintf("col%d: output %d (%s), row path %d", ci, gn, gex, rn))
+				}
+			}
 			ctx.Fail("L2", "path-counters-vs-mirror "+sig, fmt.Sprintf("the library took copy=%d reencode=%d, the Lean mirror predicts copy=%d reencode=%d (paths %v)", out.copyN, out.reencN, wantCopy, wantReenc, paths),
-				detail(map[string]any{"requests": reqs, "answers": ans}))
+				detail(map[string]any{"requests": reqs, "answers": ans, "column_index_values_over_the_limit": over}))
 		} else if c11AllVerbatim(paths) && c.prefix == 0 && c.kind == "file" {
 			c11SpliceL2(ctx, env, d, c, outInfo, detail)
 		}
@@ -1529,7 +1569,17 @@ func c11WriteFile(e *gen.Entry, rows reflect.Value, cfg *c11Cfg, extra ...parque
 
 var c11KindNames = []string{"file", "buffer", "range", "multi", "merged-unsorted", "merged-sorted", "merged-dedup", "dedup", "converted", "foreign", "foreign-skip", "multi-wrapper", "merged-packed", "multi-nested"}
 
-func c11Build(ctx *core.Ctx, env *c11Env, e *gen.Entry, r *rand.Rand, kind string, n int) *c11Case {
+// c11BuildOpt: forced axes of a built case (nil = everything drawn at random)
+type c11BuildOpt struct {
+	tweakA func(a *c11Cfg)                       // applied to the source configuration before any source is written
+	makeB  func(r *rand.Rand, a *c11Cfg) *c11Cfg // destination configuration
+}
+
+func c11Build(ctx *core.Ctx, env *c11Env, e *gen.Entry, r *rand.Rand, kind string, n int, opts ...*c11BuildOpt) *c11Case {
+	var opt *c11BuildOpt
+	if len(opts) > 0 {
+		opt = opts[0]
+	}
 	prof := &gen.Profile{NullProb: []float64{0.1, 0.5}[r.Intn(2)], MaxLen: 1 + r.Intn(3), SmallDomain: r.Intn(2) == 0}
 	if n >= 400 { // repeated columns beyond the 1024-value batches of the column-oriented re-encode path
 		prof.NullProb, prof.MaxLen = 0.1, 3+r.Intn(2)
@@ -1537,12 +1587,17 @@ func c11Build(ctx *core.Ctx, env *c11Env, e *gen.Entry, r *rand.Rand, kind strin
 	rows := e.NewRows(n)
 	gen.FillRows(r, rows, prof)
 	a := c11RandCfg(r, e.Schema)
+	if opt != nil && opt.tweakA != nil {
+		opt.tweakA(a)
+	}
 	if a.MaxRows > 0 && a.MaxRows < 4 && n > 40 {
 		n = 40
 		rows = rows.Slice(0, n)
 	}
 	var b *c11Cfg
-	if r.Intn(2) == 0 {
+	if opt != nil && opt.makeB != nil {
+		b = opt.makeB(r, a)
+	} else if r.Intn(2) == 0 {
 		b = c11CfgLike(r, a, e.Schema)
 	} else {
 		b = c11RandCfg(r, e.Schema)
@@ -1914,6 +1969,17 @@ func c11Build(ctx *core.Ctx, env *c11Env, e *gen.Entry, r *rand.Rand, kind strin
 	return c
 }
 
+func c11HasBytesLeaf(schema *parquet.Schema) bool {
+	for _, p := range schema.Columns() {
+		if leaf, ok := schema.Lookup(p...); ok {
+			if k := leaf.Node.Type().Kind(); k == parquet.ByteArray || k == parquet.FixedLenByteArray {
+				return true
+			}
+		}
+	}
+	return false
+}
+
 // c11DictLeaves: non-boolean leaves whose schema asks for dictionary encoding
 func c11DictLeaves(schema *parquet.Schema) (out [][]string) {
 	for _, p := range schema.Columns() {
@@ -2036,6 +2102,49 @@ func RunC11(ctx *core.Ctx) {
 						c11Run(ctx, env, nil, c, false)
 					} else {
 						c11Run(ctx, env, d, c, ei == 1 && k == 0 && ki < 4)
+					}
+				}
+			}
+			// the destination is the source configuration with a smaller ColumnIndexSizeLimit (source
+			// written with limit 64): the verbatim copy is eligible in every other respect
+			if c11HasBytesLeaf(e.Schema) {
+				rl := ctx.Rand("c11-limit/" + e.Name)
+				shrink := &c11BuildOpt{
+					tweakA: func(a *c11Cfg) {
+						a.IndexLimit = 64
+						a.Opts = append(a.Opts, parquet.ColumnIndexSizeLimit(func([]string) int { return 64 }))
+						a.Desc += " limit:=64"
+					},
+					makeB: func(r *rand.Rand, a *c11Cfg) *c11Cfg {
+						lim := []int{1, 2, 4, 8, 16}[r.Intn(5)]
+						nb := *a
+						nb.IndexLimit = lim
+						nb.Opts = append(append([]parquet.WriterOption{}, a.Opts...), parquet.ColumnIndexSizeLimit(func([]string) int { return lim }))
+						nb.Desc = a.Desc + fmt.Sprintf(" | like-A limit:=%d", lim)
+						return &nb
+					},
+				}
+				for _, kind := range []string{"file", "multi", "range"} {
+					for k := 0; k < ctx.Scale(2, 8); k++ {
+						env := &c11Env{chunkOf: map[*parquet.FileColumnChunk]*c11Chunk{}}
+						var c *c11Case
+						func() {
+							defer func() {
+								if rec := recover(); rec != nil {
+									ctx.Fail("L1", "panic-building-source kind="+kind, fmt.Sprintf("building the source row group panicked: %v", rec), map[string]any{"type": e.Name, "kind": kind})
+								}
+							}()
+							c = c11Build(ctx, env, e, rl, kind, []int{9, 33, 100}[rl.Intn(3)], shrink)
+						}()
+						if c == nil {
+							continue
+						}
+						ctx.Hist("destination-limit-below-source-limit", kind)
+						if d == nil {
+							c11Run(ctx, env, nil, c, false)
+						} else {
+							c11Run(ctx, env, d, c, false)
+						}
 					}
 				}
 			}
